@@ -95,6 +95,15 @@ Definition exact_of_generate_b_v0 (S : schema) : bool :=
 Definition typerefs_of_generate_b_v0 (S : schema) : bool :=
   match generate_v0 S with Some D => typeref_faithful_b S D | None => false end.
 
+(* ... and on the merge as it was before fix root-operation-invented (today's generator and converter) *)
+Definition roundtrip_b_v1 (S : schema) : bool :=
+  match generate_v1 S with
+  | Some D => match convert D with COk C => schema_equiv_b C (with_base S) | _ => false end
+  | None => false
+  end.
+Definition exact_of_generate_b_v1 (S : schema) : bool :=
+  match generate_v1 S with Some D => complete_exact_b S D | None => false end.
+
 Ltac vm := vm_compute; repeat split; reflexivity.
 
 Lemma ex_clean_ok :
@@ -148,9 +157,11 @@ Lemma w_builtin_redeclared_ok :
   wf_schema w_builtin_redeclared = true /\ lossy_clauses w_builtin_redeclared = [#"builtin-redeclared"]
   /\ exact_of_generate_b w_builtin_redeclared = false /\ roundtrip_b w_builtin_redeclared = false.
 Proof. vm. Qed.
+(* repaired: historical statement about the pre-fix merge; today the schema is inside the claims *)
 Lemma w_root_invented_ok :
-  wf_schema w_root_invented = true /\ lossy_clauses w_root_invented = [#"root-invented"]
-  /\ exact_of_generate_b w_root_invented = false /\ roundtrip_b w_root_invented = false.
+  wf_schema w_root_invented = true
+  /\ exact_of_generate_b_v1 w_root_invented = false /\ roundtrip_b_v1 w_root_invented = false
+  /\ lossy_clauses w_root_invented = [] /\ exact_of_generate_b w_root_invented = true /\ roundtrip_b w_root_invented = true.
 Proof. vm. Qed.
 
 Lemma roundtrip_refuted_proof : exists S, wf_schema S = true /\ roundtrip_b S = false.
